@@ -112,8 +112,11 @@ def make_family(cls, dom):
             for f in fields:
                 if g.choice(2, f'{f} present?') == 0:
                     d.e[f] = [True, nn(g, f'j.{f}')]
-            # the unknown key may come before or after the known ones in the text
-            d.e[g.pick(['aa_future_field', 'zz_future_field'], 'where the unknown key sorts')] = [True, nn(g, 'j.future_field')]
+            # the unknown key may come before or after the known ones in the text; it may be a name that the CLASS (not the
+            # value) happens to define (a method of the codec base class); a later version may give it a value of any JSON
+            # scalar type, not only the type today's fields have
+            key = g.pick(['aa_future_field', 'zz_future_field', 'to_json'], 'where the unknown key sorts / what it is called')
+            d.e[key] = [True, g.U('j.future_field', allowed=('bool', 'int', 'real', 'str'))]
             return [JsonText(d, True)], {}
 
         def body(self, h, s):
@@ -127,7 +130,7 @@ def make_family(cls, dom):
 
         ensures = {
             'fwd.tolerates_unknown': lambda pre, post: And(returned(post), isinst(post.result, cls)),
-            'fwd.keeps_known': lambda pre, post: And(returned(post), isinst(post.result, cls), forall(fields, lambda f: (
+            'fwd.keeps_known': lambda pre, post: returned(post) and And(isinst(post.result, cls), forall(fields, lambda f: (
                 same(fld(post.result, f), fld(Forward._sent(pre), f)) if has(Forward._sent(pre), f)
                 else same(fld(post.result, f), dflt[f]))), keys(post.result) == fields),
         }
@@ -594,7 +597,8 @@ class LabelsForward(Contract):
                 d.e[f] = [True, g.str(f'j.{f}')]
         if g.choice(2, 'a checked field present?') == 0:
             d.e['vlan'] = [True, g.pick(['100', '4095'], 'a valid vlan')]
-        d.e[g.pick(['aa_future_field', 'kk_future_field', 'zz_future_field'], 'where the unknown key sorts')] = [True, g.str('j.future')]
+        key = g.pick(['aa_future_field', 'kk_future_field', 'zz_future_field', 'to_json'], 'where the unknown key sorts / its name')
+        d.e[key] = [True, g.U('j.future', allowed=('bool', 'int', 'real', 'str'))]
         return [JsonText(d, True)], {}
 
     def body(self, h, s):
@@ -608,7 +612,7 @@ class LabelsForward(Contract):
 
     ensures = {
         'fwd.tolerates_unknown': lambda pre, post: And(returned(post), isinst(post.result, Labels)),
-        'fwd.keeps_known': lambda pre, post: And(returned(post), isinst(post.result, Labels), forall(
+        'fwd.keeps_known': lambda pre, post: returned(post) and And(isinst(post.result, Labels), forall(
             LabelsForward.FREE + ['vlan'], lambda f: (same(fld(post.result, f), fld(LabelsForward._sent(pre), f))
                                                       if has(LabelsForward._sent(pre), f) else fld(post.result, f) is None))),
     }
